@@ -35,9 +35,9 @@ def run(tier):
     rnd = os.path.join(d, "rnd_cases.ndjson")
     vf.run_harness(binpath, ["tex", "gen", "--seed", vf.seed(), "--tier", tier], stdout_path=rnd)
     vf.exec_and_validate(chk, binpath, "tex", "TV_Tex", rnd, jvms=10, what="sampler call")
-    if tier == "thorough":
-        plain = vf.build_harness("plain")
-        vf.exec_and_validate(chk, plain, "tex", "TV_Tex", rnd, jvms=10, what="sampler call (plain release build)")
+    # also in a plain release build (no debug assertions, wrapping arithmetic): what a user ships
+    plain = vf.build_harness("plain")
+    vf.exec_and_validate(chk, plain, "tex", "TV_Tex", rnd, jvms=10, what="sampler call (plain release build)")
     chk.cov["distinct_nontrivial"] = chk.cov["traces_validated_against_impl"]
     chk.cov["trusted_base"] = ["TLC + CommunityModules", "harness/src/tex.rs recorder and f32 decoding (util::f32_rec)"]
     chk.assumptions = ["texel type (i32,i32); coordinates >= 2^31 in magnitude / NaN may address any texel"]
